@@ -37,6 +37,7 @@ let run_case toks obs =
                 | "new" :: r -> Some (TNewMap (tagmap_of_text (String.concat ":" r)))
                 | [ "add"; c; m ] -> if idx c < List.length !cctx && idx m < List.length !cmaps then Some (TAdd (nth cctx (idx c), nth cmaps (idx m))) else None
                 | [ "read"; c ] -> if idx c < List.length !cctx then Some (TRead (nth cctx (idx c))) else None
+                | [ "der"; c; _ ] -> if idx c < List.length !cctx then Some (TDerive (nth cctx (idx c))) else None
                 | "mut" :: m :: kx :: v -> if idx m < List.length !cmaps then Some (TMutate (nth cmaps (idx m), bytes_of_hex kx, parse (String.concat ":" v))) else None
                 | _ -> None) in
              (match mop with
@@ -45,7 +46,7 @@ let run_case toks obs =
                   h := h';
                   (match o, res with
                    | TNewMap _, Some m | TRead _, Some m -> cmaps := m :: !cmaps
-                   | TAdd _, Some c -> cctx := c :: !cctx
+                   | TAdd _, Some c | TDerive _, Some c -> cctx := c :: !cctx
                    | _ -> ())
               | None -> ());
              let mview = String.concat "|" (List.map (fun c -> match tags_of !h c with Some t -> print_tagmap t | None -> "-") (List.rev !cctx)) in
